@@ -1,6 +1,6 @@
 (** * DecisionMaker.MakeDecision (lib/model/decision-maker.go, bias.go) *)
 From Coq Require Import ZArith Bool List String Ascii.
-From RDM Require Import Base.Num Base.Util Model.Data Model.Rank Model.Utility Model.Levels Model.Heuristics Model.Electre.
+From RDM Require Import Base.Num Base.Util Model.Data Model.Rank Model.Utility Model.Levels Model.Heuristics Model.Electre Model.Listeners Model.Biases Model.Anchoring.
 Import ListNotations.
 Local Open Scope string_scope.
 
@@ -80,13 +80,41 @@ Section Pipeline.
     Ok {| st_notcons := not_considered req; st_cons := consd; st_crits := r_crits req; st_params := p |}.
 
   (** Response of the model *)
-  Record echo := { ec_name : string; ec_prob : num; ec_fired : bool }.
+  Record echo := { ec_name : string; ec_prob : num; ec_fired : bool; ec_report : report }.
   Record response := { resp_result : list entry; resp_biases : list echo }.
 
-  Definition decide (e : env) (req : request) : res response :=
-    do st <- prepare req;
-    match filter (fun b => negb (b_disabled b)) (r_biases req) with
-    | [] => do r <- evaluate (r_method req) e st; Ok {| resp_result := r; resp_biases := [] |}
-    | _ => Err EType
+  (* processBiases: one draw per enabled bias, fired iff applyProbability > draw *)
+  Fixpoint process_biases (e : env) (bs : list biasreq) (cur : state) (g : rng) : res (state * list echo) :=
+    match bs with
+    | [] => Ok (cur, [])
+    | b :: rest =>
+        do dg <- draw g;
+        if nltb (fst dg) (b_prob b) then
+          do sr <- apply_bias e (b_name b) cur (b_props b);
+          do r <- process_biases e rest (fst sr) (snd dg);
+          (* a bias that returns no props (mixing with fewer than two criteria) is echoed with props null *)
+          Ok (fst r, {| ec_name := b_name b; ec_prob := b_prob b;
+                        ec_fired := match snd sr with RNone => false | _ => true end; ec_report := snd sr |} :: snd r)
+        else
+          do r <- process_biases e rest cur (snd dg);
+          Ok (fst r, {| ec_name := b_name b; ec_prob := b_prob b; ec_fired := false; ec_report := RNone |} :: snd r)
     end.
+
+  Definition enabled_biases (req : request) : list biasreq := filter (fun b => negb (b_disabled b)) (r_biases req).
+
+  (* the state the method is evaluated on, and the bias echoes *)
+  Definition biased_state (e : env) (req : request) : res (state * list echo) :=
+    do st <- prepare req;
+    let bs := enabled_biases req in
+    (* ChooseBiases: every enabled bias must be registered *)
+    if negb (forallb (fun b => mem_str (b_name b) bias_names) bs) then Err EInvalid else
+    match bs with
+    | [] => Ok (st, [])
+    | _ => process_biases e bs st (new_rng e (r_seed req))
+    end.
+
+  Definition decide (e : env) (req : request) : res response :=
+    do sb <- biased_state e req;
+    do r <- evaluate (r_method req) e (fst sb);
+    Ok {| resp_result := r; resp_biases := snd sb |}.
 End Pipeline.
